@@ -21,6 +21,10 @@
      with the Future (its Signal is freed with it): no          fixes/C10/04, c_sigfix = true);
      worker holds the call record or stands inside the          destructor_waits_refuted_original: FALSE for
      completion handshake when ~Future returns                  Signal::set() as it was (unlock, then broadcast)
+   the RESULT SLOT (member `result` of Future<A>, destroyed  result_slot_outlives_execution (no hypothesis on
+     by ~Future<A> after its join()) is destroyed only          c_sigfix): at EvDestroy the latest started call
+     after the execution has completed: the worker never        has run, once, and its EvStore lies before
+     assigns into a destroyed result object
    after join: isAborted only if abort() was requested        aborted_only_if_requested
      since the start, isFinished otherwise
    MPMC ring: ticket/sequence invariant; no slot handed      ring_ticket_invariant, ring_no_two_consumers,
@@ -134,6 +138,14 @@ Theorem destructor_waits_for_worker : forall cfg own sched, wf_cfg cfg own -> c_
   forall c f clean, In (EvDestroy c f clean) (snd (exec cfg sched)) -> clean = true.
 Proof. exact destructor_waits_for_worker_lemma. Qed.
 Print Assumptions destructor_waits_for_worker.
+
+Theorem result_slot_outlives_execution : forall cfg own sched, wf_cfg cfg own ->
+  forall newer c f clean older,
+    snd (exec cfg sched) = newer ++ EvDestroy c f clean :: older ->
+    forall n a, latest_start older f n a ->
+      runs older f n = 1%nat /\ In (EvStore f n (c_fn cfg a)) older.
+Proof. exact result_slot_outlives_execution_lemma. Qed.
+Print Assumptions result_slot_outlives_execution.
 
 Theorem destructor_waits_refuted_original :
   exists cfg own sched,
